@@ -123,6 +123,7 @@ class Config:
         s.max_traces = 2
         s.solver = 'default'
         s.flat = True
+        s.keep_paths = False
         for k, v in kw.items():
             setattr(s, k, v)
 
@@ -174,6 +175,7 @@ class Engine:
         s.cuts = 0
         s.traces = []
         s.path_kinds = {}
+        s.paths = []
         from models import Models
         s.models = Models(s)
 
@@ -270,15 +272,21 @@ class Engine:
                         else 'unreach' if t.op == 'unreachable' else 'flow')
         D = {bn for bn in f.blocks if term[bn] == 'throw'}
         R = {bn for bn in f.blocks if term[bn] == 'resume'}
+        # UBSan trap blocks (ubsantrap; unreachable) inside an error-formatting region do not keep it alive
+        T = {bn for bn, b in f.blocks.items() if term[bn] == 'unreach' and len(b.instrs) <= 2 and any(
+            i.op == 'call' and i.ops[0].k == 'global' and i.ops[0].v == '@llvm.ubsantrap' for i in b.instrs)}
         changed = True
         while changed:
             changed = False
             for bn in f.blocks:
                 if bn in D or bn in R or term[bn] != 'flow' or not succ[bn]:
                     continue
-                if all(x in D or x in R for x in succ[bn]) and any(x in D for x in succ[bn]):
+                ss = [x for x in succ[bn] if x not in T]
+                if not ss:
+                    continue
+                if all(x in D or x in R for x in ss) and any(x in D for x in ss):
                     D.add(bn); changed = True
-                elif all(x in R for x in succ[bn]):
+                elif all(x in R for x in ss):
                     R.add(bn); changed = True
         info = {}
         for bn in D:
@@ -414,7 +422,7 @@ class Engine:
             ob.kind = kind
         elif g['external']:
             raise Inconclusive(f'external global {name} accessed')
-        if st.foot is not None and not g['const']:
+        if st.foot is not None and st.foot.get('on') and (not g['const'] or 'thread_local' in g['kw']):
             st.foot['mutable_globals'].add(name)
         return ob
 
@@ -568,6 +576,8 @@ class Engine:
         if f is None or not f.get('on'):
             return
         key = 'stores' if write else 'loads'
+        if ob.kind == 'global':
+            f['mutable_globals'].add(str(p.obj))
         shared = ob.kind != 'stack' or p.obj in f['shared']
         f[key].add((ob.kind, 'shared' if shared else 'private'))
         if write and shared:
@@ -889,6 +899,9 @@ class Engine:
             s.completed.append({'how': how, 'n_inputs': len(st.inputs), 'n_pc': len(st.pc), 'observes': len(st.observes)})
         s.last_state = st
         s.path_kinds[how] = s.path_kinds.get(how, 0) + 1
+        if s.cfg.keep_paths:
+            s.paths.append({'how': how, 'tainted': st.tainted, 'pc': list(st.pc), 'observes': list(st.observes),
+                            'asserted': list(st.asserted), 'state': st})
         if how == 'returned' and len(s.traces) < s.cfg.max_traces and not st.tainted:
             r, m = s.check(st, want_model=True)
             if r == 'sat':
